@@ -11,7 +11,7 @@ run_cmd do
   let mut names : Array Name := #[]
   for (n, ci) in env.constants.toList do
     let last := n.components.getLast!.toString
-    let auto := last == "injEq" || last == "sizeOf_spec" || last.startsWith "eq_" || last.startsWith "match_"
+    let auto := last == "injEq" || last == "sizeOf_spec" || ((last.startsWith "eq_") && (last.drop 3).all Char.isDigit) || last.startsWith "match_"
       || last.startsWith "proof_" || last == "inj" || last == "noConfusion" || last.startsWith "_"
       || last == "ext" || last == "ext_iff" || last == "eq_def"
     if (`Feems.Props).isPrefixOf n && !n.isInternal && !auto then
